@@ -1,6 +1,9 @@
 import GlyProofs.Front.Accept
 import GlyProofs.Front.AtnSound
 import GlyModel.Generated.Atn
+import GlyModel.Generated.LexAtn
+import GlyProofs.Front.LexAtnFG
+import GlyProofs.Front.LexAtnSAC
 import GlyProofs.Front.ParseComplete
 /-
   C15 — What is accepted is exactly the published grammar.  (Property theorems only.)
@@ -91,5 +94,28 @@ theorem C15_atn_matches_grammar (i : Nat) (hi : i < Gen.grammar.rules.length) (w
   rw [List.all_eq_true] at h2
   have hall : ruleOk (Gen.parserAtn.getD i default) (Gen.grammar.rule i) = true := h2 i (List.mem_range.mpr hi)
   exact ruleOk_sound _ _ hall w hw
+
+open Gly.Atn in
+/-- **The serialized ATN of `GlycanLexer.py` is the token table of `Glycan.g4`, token rule by token rule**: the i-th token rule of
+    the lexer ATN has the token type of the i-th rule of the regenerated token table; if that rule is a list of literals, the
+    rule's sub-automaton accepts exactly those literals (enumeration along a kernel-checked rank: `wordsFrom_sound/complete`);
+    if it has character ranges or a star (`NUM`), both accept the same words (`ruleOk_sound`). -/
+theorem C15_lexer_atn_matches_token_table (i : Nat) (hi : i < Gen.lexRules.length) :
+    let l := Gen.lexerAtn.getD i default
+    let r := Gen.lexRules.getD i ⟨0, "", []⟩
+    l.ty = r.ty ∧
+    (∀ lits, literalsOf r = some lits → ∀ w, Path l.nfa l.nfa.start w l.nfa.stop ↔ w ∈ lits) ∧
+    (literalsOf r = none → ∀ w, (∀ s ∈ w, s ∈ alphabetOf l.nfa (rxOfRule r)) →
+      (Flat (rxOfRule r) w ↔ Path l.nfa l.nfa.start w l.nfa.stop)) := by
+  have h2 := lex_small_ok.2
+  rw [List.all_eq_true] at h2
+  have h3 := h2 i (List.mem_range.mpr hi)
+  have hall : lexOkAt i = true := by
+    by_cases e1 : i = idxFG
+    · rw [e1]; exact lex_FG_ok
+    · by_cases e2 : i = idxSAC
+      · rw [e2]; exact lex_SAC_ok
+      · simpa [e1, e2] using h3
+  exact lexRuleOk_sound _ _ hall
 
 end Gly.Props.C15
